@@ -2703,7 +2703,17 @@ func (in *Interp) variadic(sig *VOpaque) bool {
 
 func (in *Interp) isPurePredicate(f *VFunc) bool {
 	sig := f.Pkg.TypesInfo.Defs[f.Decl.Name].Type().(*types.Signature)
-	if sig.Recv() != nil || sig.Params().Len() == 0 || sig.Results().Len() != 1 {
+	if sig.Recv() != nil || sig.Params().Len() == 0 {
+		return false
+	}
+	// (T, found) with a go/types type T: the comma-ok way of writing "a *T that is nil when nothing was found"
+	commaOK := false
+	if sig.Results().Len() == 2 {
+		if b, ok := sig.Results().At(1).Type().Underlying().(*types.Basic); ok && b.Kind() == types.Bool && strings.Contains(sig.Results().At(0).Type().String(), "go/types.Type") {
+			commaOK = true
+		}
+	}
+	if sig.Results().Len() != 1 && !commaOK {
 		return false
 	}
 	for i := 0; i < sig.Params().Len(); i++ {
@@ -2737,6 +2747,9 @@ func (in *Interp) isPurePredicate(f *VFunc) bool {
 	}
 	if leaf && leafPredNames[f.Decl.Name.Name] {
 		return false
+	}
+	if commaOK {
+		return true
 	}
 	rt := sig.Results().At(0).Type()
 	if b, ok := rt.Underlying().(*types.Basic); ok && b.Kind() == types.Bool {
